@@ -173,6 +173,15 @@ Definition perm_map (p : idx) : imap :=
            let pick k := if a =? k then j0 else if b =? k then j1 else j2 in
            Some (pick 0, pick 1, pick 2).
 
+Fixpoint insert_at {A} (k : nat) (x : A) (l : list A) : list A :=
+  match k, l with
+  | O, _ => x :: l
+  | S k', y :: l' => y :: insert_at k' x l'
+  | S _, [] => [x]
+  end.
+Fixpoint has_dup (l : list Z) : bool :=
+  match l with [] => false | x :: l' => existsb (Z.eqb x) l' || has_dup l' end.
+
 Section Model.
 Variable R : Type.
 Variables (rO rI : R) (radd rmul rsub : R -> R -> R) (ropp : R -> R).
@@ -272,6 +281,13 @@ Definition is_left (A : affR) : bool := ltb (det3 A) rO.
 
 (* ------------------------------------------------------------ methods of _VolumeBase,
    generic in the object type T and its three abstract methods *)
+(* random_flip_spatial / random_permute_spatial_axes / random_spatial_crop: the values drawn
+   from np.random are inputs of the model (the harness seeds the generator and predicts them) *)
+Inductive randop :=
+| RFlip (axes : list Z) (draws : list Z)        (* randint(2) per d in 0..2 with d in axes *)
+| RPermute (axes : list Z) (drawn : list Z)     (* np.random.permutation(axes) *)
+| RCrop (shape : list Z) (starts : list Z).     (* randint(0, max_start + 1) per zipped axis *)
+
 Inductive sop :=
 | OGet (ix : index)
 | OFlip (ax : faxes)
@@ -282,7 +298,8 @@ Inductive sop :=
 | OCropTo (shape : list Z)
 | OPadOrCropTo (shape : list Z) (m : pmode) (cval : Vx) (pc : bool)
 | OOrient (o : list Z)
-| OHanded (h : hand) (flip_axis : option Z) (swap_axes : option (list Z)).
+| OHanded (h : hand) (flip_axis : option Z) (swap_axes : option (list Z))
+| ORand (r : randop).
 
 Section Base.
 Variable T : Type.
@@ -389,6 +406,59 @@ Definition ensure_handedness (t : T) (h : hand) (flip_axis : option Z) (swap : o
       end
   end.
 
+(* ---- random_* : validation, then the index / permutation handed to __getitem__ /
+   permute_spatial_axes *)
+Definition rand_axes_ok (axes : list Z) : bool :=
+  negb ((Z.of_nat (length axes) <? 2) || (3 <? Z.of_nat (length axes))) &&
+  negb (has_dup axes) && negb (existsb (fun a => (a <? 0) || (2 <? a)) axes).
+
+Fixpoint rand_flip_items (axes : list Z) (d : Z) (n : nat) (draws : list Z) : res (list item) :=
+  match n with
+  | O => Ok []
+  | S n' =>
+      if existsb (Z.eqb d) axes then
+        match draws with
+        | [] => Err "unmodelled: missing random draw"
+        | x :: draws' =>
+            bind (rand_flip_items axes (d + 1) n' draws') (fun r =>
+            Ok ((if x =? 1 then ISlc None None (Some (-1)) else ISlc None None None) :: r))
+        end
+      else bind (rand_flip_items axes (d + 1) n' draws) (fun r => Ok (ISlc None None None :: r))
+  end.
+
+Fixpoint rand_crop_items (cs ins : list Z) (starts : list Z) : res (list item) :=
+  match cs, ins with
+  | c :: cs', d :: ins' =>
+      if d - c <? 0 then Err "ValueError"
+      else match starts with
+           | [] => Err "unmodelled: missing random draw"
+           | st :: starts' =>
+               bind (rand_crop_items cs' ins' starts') (fun r =>
+               Ok (ISlc (Some st) (Some (st + c)) None :: r))
+           end
+  | _, _ => Ok []
+  end.
+
+Definition rand_plan (shape : idx) (r : randop) : res (index + list Z) :=
+  match r with
+  | RFlip axes draws =>
+      if rand_axes_ok axes then bind (rand_flip_items axes 0 3 draws) (fun its => Ok (inl (XTup its)))
+      else Err "ValueError"
+  | RPermute axes drawn =>
+      if rand_axes_ok axes then
+        Ok (inr (if Z.of_nat (length drawn) =? 2
+                 then let missing := 3 - fold_left Z.add drawn 0 in
+                      insert_at (Z.to_nat missing) missing drawn
+                 else drawn))
+      else Err "ValueError"
+  | RCrop cs starts =>
+      bind (rand_crop_items cs (shape_list shape) starts) (fun its => Ok (inl (XTup its)))
+  end.
+
+Definition rand_op (t : T) (r : randop) : res (T * imap) :=
+  bind (rand_plan (t_shape t) r) (fun pl =>
+  match pl with inl ix => t_get t ix | inr p => t_perm t p end).
+
 Definition step_sp (t : T) (o : sop) : res (T * imap) :=
   match o with
   | OGet ix => t_get t ix
@@ -401,6 +471,7 @@ Definition step_sp (t : T) (o : sop) : res (T * imap) :=
   | OPadOrCropTo s m cval pc => pad_or_crop_to t s m cval pc
   | OOrient o => to_orientation t o
   | OHanded h f s => ensure_handedness t h f s
+  | ORand r => rand_op t r
   end.
 End Base.
 
@@ -514,12 +585,6 @@ Fixpoint find_chan (d : Z) (l : list chan) (k : Z) : option (Z * list Z) :=
   | (d', vals) :: l' => if d =? d' then Some (k, vals) else find_chan d l' (k + 1)
   end.
 
-Fixpoint insert_at {A} (k : nat) (x : A) (l : list A) : list A :=
-  match k, l with
-  | O, _ => x :: l
-  | S k', y :: l' => y :: insert_at k' x l'
-  | S _, [] => [x]
-  end.
 Fixpoint replace_at {A} (k : nat) (x : A) (l : list A) : list A :=
   match k, l with
   | _, [] => []
@@ -534,8 +599,6 @@ Fixpoint remove_at {A} (k : nat) (l : list A) : list A :=
   end.
 
 (* the constructor's checks on (array shape, channels) *)
-Fixpoint has_dup (l : list Z) : bool :=
-  match l with [] => false | x :: l' => existsb (Z.eqb x) l' || has_dup l' end.
 Definition ctor_ok (ashape : list Z) (chans : list chan) : bool :=
   (3 <=? Z.of_nat (length ashape)) &&
   (Z.of_nat (length chans) =? Z.of_nat (length ashape) - 3) &&
